@@ -249,7 +249,7 @@ func (c *Ctx) mcChunk(cfg *MCConfig, gs []*gast.Grammar, base int, rng *rand.Ran
 			}
 		}
 		if len(diffs) == 0 {
-			if len(m.Trace) > 2 {
+			if len(m.Trace) > 2 || (m.Backtracks > 2 && len(cs.in) > 1) {
 				c.sampleCase(cs, m)
 			}
 			continue
